@@ -1,5 +1,5 @@
 //@PROBE file=src/trackers/sort/voting.rs test=verif_probe_sort_voting clauses=sort_voting
-//@BOUND exhaustive over 1..=3 detections x 1..=3 tracks, every weight matrix over the grid {absent, 0.10, 0.29, 0.31, 0.50, 0.90} straddling the thresholds 0.3 and 0.5; compared with brute-force maximum-weight one-to-one assignment (unmatched = threshold)
+//@BOUND exhaustive over 1..=3 detections x 1..=3 tracks, every weight matrix over the grid {absent, 0.10, 0.29, 0.31, 0.50, 0.90} straddling the thresholds 0.3 and 0.5; every 53rd matrix also with 20000 more tracks declared to the engine than take part; compared with brute-force maximum-weight one-to-one assignment (unmatched = threshold)
 #[cfg(test)]
 mod verif_probe_sort_voting {
     // Bounded stand-in for SortVoting::winners (HashMap + external Hungarian solver: outside both verifiers).
@@ -50,10 +50,14 @@ mod verif_probe_sort_voting {
                         } else { w[c][t] = None; } } } }
                         let cands: std::collections::HashSet<u64> = dists.iter().map(|d| d.from).collect();
                         if dists.is_empty() { continue; }
+                        // the trackers declare the number of live tracks of ALL scenes: the declared count only sizes the problem, every
+                        // fifty-third matrix is also solved with 20000 more tracks declared than take part
+                        let declared: Vec<usize> = if code % 53 == 0 { vec![tracks_present.len(), tracks_present.len() + 20000] } else { vec![tracks_present.len()] };
+                        for decl in declared {
                         cases += 1;
-                        let voting = SortVoting::new(thr, cands.len(), tracks_present.len());
-                        let win = voting.winners(dists);
-                        let ctx = format!("PROBE input: sort_voting threshold={} weights(detections x tracks)={:?}", thr, w);
+                        let voting = SortVoting::new(thr, cands.len(), decl);
+                        let win = voting.winners(dists.clone());
+                        let ctx = format!("PROBE input: sort_voting threshold={} declared tracks={} weights(detections x tracks)={:?}", thr, decl, w);
                         let mut used_tracks = std::collections::HashSet::new();
                         let mut total_w: i64 = 0;
                         let thr_i = (thr * M) as i64;
@@ -79,6 +83,7 @@ mod verif_probe_sort_voting {
                         let part: Vec<Vec<Option<f32>>> = (0..nc).filter(|c| cands.contains(&(1000 + *c as u64))).map(|c| w[c].clone()).collect();
                         let best = best_total(&part, thr_i, 0, &mut vec![false; nt]);
                         if total_w != best { failures.push(format!("{}: chosen assignment has total weight {} but the maximum is {}", ctx, total_w, best)); }
+                        }
                         if failures.len() > 50 { break; }
                     }
                 }
